@@ -2162,6 +2162,12 @@ class Node(_protocols.NodeProtocol, _display.PrettyPrintable):
         # very often. This way all mutations can be tracked.
         # If necessary, we can cache the inputs and outputs as tuples.
         self._inputs: tuple[Value | None, ...] = tuple(inputs)
+        for input_value in self._inputs:
+            # Check before anything is registered, so that a rejected construction has no effect
+            if input_value is not None and not isinstance(input_value, Value):
+                raise TypeError(
+                    f"Node inputs must be Value objects or None, not {type(input_value)}"
+                )
         # Values belong to their defining nodes. The values list is immutable
         self._outputs: tuple[Value, ...] = self._create_outputs(num_outputs, outputs)
         if isinstance(attributes, Mapping):
@@ -2402,6 +2408,8 @@ class Node(_protocols.NodeProtocol, _display.PrettyPrintable):
         """Replace an input with a new value."""
         if index < 0 or index >= len(self.inputs):
             raise ValueError(f"Index out of range: {index}")
+        if value is not None and not isinstance(value, Value):
+            raise TypeError(f"The new input must be a Value or None, not {type(value)}")
         old_input = self.inputs[index]
         self._inputs = tuple(
             value if i == index else old_input for i, old_input in enumerate(self.inputs)
